@@ -69,45 +69,49 @@ def placement_case(ctx, rng):
     for g, rr in enumerate(m["reshaped"]):
         if rr is not None:
             model[g] = tag[rr]
-    # --- constant
-    orig = vs.variance_stokes_constant_helper
-    vs.variance_stokes_constant_helper = lambda data_dict: (1.0, tag.copy())
-    try:
-        _, res = vs.variance_stokes_constant(st, sec, np.ones(nt), reshape_residuals=True)
-        got = np.asarray(res.values)
-    except Exception as e:  # noqa: BLE001
-        got = None
-        ctx.fail(f"variance_stokes_constant raised {type(e).__name__}: {e}", case)
-    finally:
-        vs.variance_stokes_constant_helper = orig
-    if got is not None:
-        if not np.array_equal(got, model, equal_nan=True):
-            ctx.mismatch("Resid.reshaped (constant)", case, m["reshaped"], "see replay")
-        if not np.array_equal(got, want, equal_nan=True):
-            ctx.fail("variance_stokes_constant: residual rows are not at their own reference locations (NaN elsewhere)", case)
-    # --- exponential: y of a stretch is time-major: index t*len + l
-    origE = vs.variance_stokes_exponential_helper
+    # the Stokes may be held in memory or be a lazily evaluated (dask) array, in any chunking: same residual array either way
+    backings = [("numpy", st), ("dask", st.chunk({"x": rng.randint(1, max(1, nx // 2)), "time": rng.randint(1, nt)}))]
+    for backing, st_in in backings:
+        # --- constant
+        orig = vs.variance_stokes_constant_helper
+        vs.variance_stokes_constant_helper = lambda data_dict: (1.0, tag.copy())
+        try:
+            _, res = vs.variance_stokes_constant(st_in, sec, np.ones(nt), reshape_residuals=True)
+            got = np.asarray(res.values)
+        except Exception as e:  # noqa: BLE001
+            got = None
+            ctx.fail(f"variance_stokes_constant raised {type(e).__name__}: {e}", case)
+        finally:
+            vs.variance_stokes_constant_helper = orig
+        if got is not None:
+            if not np.array_equal(got, model, equal_nan=True):
+                ctx.mismatch("Resid.reshaped (constant)", case, m["reshaped"], "see replay")
+            if not np.array_equal(got, want, equal_nan=True):
+                ctx.fail(f"variance_stokes_constant ({backing} input): residual rows are not at their own reference locations (NaN elsewhere)", case)
+        # --- exponential: y of a stretch is time-major: index t*len + l
+        origE = vs.variance_stokes_exponential_helper
 
-    def stubE(nt_, x_, y_, len_list, use_sm, supp):
-        out, r0 = [], 0
-        for ln in len_list:
-            blockt = tag[r0:r0 + ln]            # (ln, nt)
-            out.append(blockt.T.reshape(-1))    # time-major
-            r0 += ln
-        return 1.0, np.concatenate(out)
+        def stubE(nt_, x_, y_, len_list, use_sm, supp):
+            out, r0 = [], 0
+            for ln in len_list:
+                blockt = tag[r0:r0 + ln]            # (ln, nt)
+                out.append(blockt.T.reshape(-1))    # time-major
+                r0 += ln
+            return 1.0, np.concatenate(out)
 
-    vs.variance_stokes_exponential_helper = stubE
-    try:
-        _, res = vs.variance_stokes_exponential(st, sec, np.ones(nt), reshape_residuals=True, suppress_info=True)
-        got = np.asarray(res.values)
-        if not np.array_equal(got, model, equal_nan=True):
-            ctx.mismatch("Resid.reshaped (exponential)", case, m["reshaped"], "see replay")
-        if not np.array_equal(got, want, equal_nan=True):
-            ctx.fail("variance_stokes_exponential: residual rows are not at their own reference locations (NaN elsewhere)", case)
-    except Exception as e:  # noqa: BLE001
-        ctx.fail(f"variance_stokes_exponential raised {type(e).__name__}: {e}", case)
-    finally:
-        vs.variance_stokes_exponential_helper = origE
+        vs.variance_stokes_exponential_helper = stubE
+        try:
+            _, res = vs.variance_stokes_exponential(st_in, sec, np.ones(nt), reshape_residuals=True, suppress_info=True)
+            got = np.asarray(res.values)
+            if not np.array_equal(got, model, equal_nan=True):
+                ctx.mismatch("Resid.reshaped (exponential)", case, m["reshaped"], "see replay")
+            if not np.array_equal(got, want, equal_nan=True):
+                ctx.fail(f"variance_stokes_exponential ({backing} input): residual rows are not at their own reference locations (NaN elsewhere)", case)
+        except Exception as e:  # noqa: BLE001
+            ctx.fail(f"variance_stokes_exponential raised {type(e).__name__}: {e}", case)
+        finally:
+            vs.variance_stokes_exponential_helper = origE
+        ctx.count("placement backing " + backing)
     # --- linear: intensity and residual of the same observation are paired
     origC, origL = vs.variance_stokes_constant, vs.variance_stokes_linear_helper
     cap = {}
